@@ -6253,6 +6253,7 @@ class Query(object):
                     expr_type = str
                 else:
                     expr_type = translator.expr_type
+                    if aggr_func_name == 'SUM' and expr_type is bool: expr_type = int
                 provider = query._database.provider
                 converter = provider.get_converter_by_py_type(expr_type)
                 result = converter.sql2py(result)
